@@ -366,50 +366,47 @@ void COTmrProcess(CO_TMR *tmr)
     CO_TMR_TIME   *tn;
     CO_TMR_TIME   *res;
     CO_TMR_ACTION *act;
-    CO_TMR_ACTION *next;
     CO_TMR_FUNC    func;
     void          *para;
 
     while (tmr->Elapsed != 0) {
+        /* take the first action out of the first elapsed timer event;
+         * the following actions of this event stay in the elapsed list
+         * until it is their turn: a callback function is able to
+         * delete them
+         */
         COTmrLock();
-        tn            = tmr->Elapsed;
-        tmr->Elapsed  = tn->Next;
-
-        act           = tn->Action;
-        tn->Action    = 0;
-        tn->ActionEnd = 0;
-        tn->Delta     = 0;
-        tn->Next      = tmr->Free;
-        tmr->Free     = tn;
-        COTmrUnlock();
-
-        /* loop through all actions of elapsed timer event */
-        while (act != 0) {
-            next      = act->Next;
-            act->Next = 0;
-            func      = act->Func;
-            para      = act->Para;
-
-            if (act->CycleTicks == 0) {
-                act->Para = 0;
-                act->Func = (CO_TMR_FUNC)0;
-                COTmrLock();
-                act->Next = tmr->Acts;
-                tmr->Acts = act;
-                COTmrUnlock();
-
-            } else {
-                COTmrLock();
-                res = COTmrInsert(tmr, act->CycleTicks, act);
-                COTmrUnlock();
-                if (res == (CO_TMR_TIME*)0) {
-                    tmr->Node->Error = CO_ERR_TMR_CREATE;
-                }
-            }
-            /* execute callback function */
-            func(para);
-            act = next;
+        tn         = tmr->Elapsed;
+        act        = tn->Action;
+        tn->Action = act->Next;
+        if (tn->Action == 0) {
+            /* last action: release the elapsed timer event */
+            tmr->Elapsed  = tn->Next;
+            tn->ActionEnd = 0;
+            tn->Delta     = 0;
+            tn->Next      = tmr->Free;
+            tmr->Free     = tn;
         }
+        act->Next = 0;
+        func      = act->Func;
+        para      = act->Para;
+        res       = tn;
+
+        if (act->CycleTicks == 0) {
+            act->Para = 0;
+            act->Func = (CO_TMR_FUNC)0;
+            act->Next = tmr->Acts;
+            tmr->Acts = act;
+        } else {
+            res = COTmrInsert(tmr, act->CycleTicks, act);
+        }
+        COTmrUnlock();
+        if (res == (CO_TMR_TIME*)0) {
+            tmr->Node->Error = CO_ERR_TMR_CREATE;
+        }
+
+        /* execute callback function */
+        func(para);
     }
 }
 
